@@ -26,7 +26,7 @@ def gen_scenarios(rng, n, focus):
 
     fams = []
     if focus == "c01":
-        fams = ["sole_corrupt"] * 4 + ["sole_corruptclose"] * 3 + ["liar_and_honest"] * 4 + ["ignoring"] * 3 + ["dropping"] * 3 + ["ws_corrupt"] * 2 + \
+        fams = ["sole_corrupt"] * 4 + ["sole_corruptclose"] * 3 + ["wronghash"] * 4 + ["liar_and_honest"] * 4 + ["ignoring"] * 3 + ["dropping"] * 3 + ["ws_corrupt"] * 2 + \
                ["ws_and_liar"] * 2 + ["stopstart"] * 3 + ["partial_liars"] * 2 + ["honest"]
     else:
         fams = ["honest"] * 3 + ["ws_only"] * 3 + ["ws_and_peer"] * 2 + ["split_have"] * 2 + ["dropping"] * 2 + ["ignoring"] * 2 + \
@@ -47,6 +47,15 @@ def gen_scenarios(rng, n, focus):
             add(layout=lay, seq=seq, honest=True,
                 peers=[{"name": "liar", "ip": "127.0.0.2", "policy": pol, "k": rng.randint(1, 3), "have": "all", "sole": True,
                         "noFast": rng.random() < 0.3}, honest])
+        elif fam == "wronghash":
+            # the metainfo's hash of one piece differs from the hash of the served content in ONE byte (position rotates over all 20):
+            # the hash gate must compare the whole digest; nothing of that piece may be written or reported
+            wh = getattr(gen_scenarios, "_wh", 0)
+            gen_scenarios._wh = wh + 1
+            add(layout=rng.choice(["single", "multi", "odd", "padmid"]), seq=seq, honest=False, timeoutMs=1200, badHash=True,
+                badHashPiece=rng.randint(0, 2), badHashPos=wh % 20,
+                peers=[dict(honest), {"name": "h2", "ip": "127.0.0.10", "policy": "honest", "have": "all", "joinAfterMs": 150}],
+                webseeds=([{"policy": "honest"}] if rng.random() < 0.3 else []))
         elif fam == "sole_corruptclose":
             add(layout=rng.choice(["single", "multi", "odd"]), seq=seq, honest=True, unit=rng.choice([65536, 262144]),
                 peers=[{"name": "liar", "ip": "127.0.0.2", "policy": "corruptclose", "have": "all", "sole": True,
